@@ -366,6 +366,8 @@ func runC16(c *Ctx) {
 	checkFilterConsultsOutpointSets(c, "C16-R2")
 	checkFilterBlockVisitsEveryTx(c, "C16-R2")
 	checkWatchedAddressSetOnlyGrows(c, "C16-R6")
+	checkAddrTypeFollowsBranch(c, "C16-R4")
+	checkBirthdayMargin(c, "C16-R6")
 	checkRecoveryWindowForms(c, "C16-R6")
 	// ---------- R5 ----------
 	if rec := walletFn(c, "C16-R5", "recovery"); rec != nil {
